@@ -256,6 +256,10 @@ def run(chk, program, tier):
                 continue
             chk.check(cls['kind'] in ('DATE', 'TIME', 'LOOKUP'), 'JSON-RAW-FIRST', f"{fname}::{f.id}", file='nmea2000/pgns.py', line=t.s['line'], func=fname,
                       expected='raw_value used when present (value may be ISO text / a name after a JSON round trip)', found=cls['kind'])
+            if cls.get('raw_truthy'):
+                chk.violation('JSON-RAW-FIRST', f"{fname}::{f.id}::raw-value-0-is-present", file='nmea2000/pgns.py', line=t.s['line'], func=fname,
+                              expected='raw_value used whenever there is one (`is not None`)', found='raw_value tested for truth: a raw value of 0 falls back to the displayed value',
+                              detail='after a JSON round trip the displayed value is ISO text / a name: midnight, the first day of the epoch, code 0 no longer encode to the original bytes')
     chk.floor('raw_first_sites', k, 600)
 
 class _Null:
